@@ -79,6 +79,11 @@ DIRECTED = [
     {'prog': [_p('a', r='XK')], 'cfg': {'fexc': 'exact'}},
     {'prog': [_p('a', r='XK')], 'cfg': {'fexc': 'super'}},
     {'prog': [_p('a', r='BAD')], 'cfg': {'fexc': 'super'}},
+    # SystemExit raised on the executor thread itself (a run_if predicate)
+    {'prog': [_p('a'), _p('b', run_if='exit'), _p('c')], 'cfg': {}},
+    {'prog': [_p('a', run_if='exit')], 'cfg': {'tdiag': 'pass'}},
+    {'prog': [['G', [_p('s')], [_p('m', run_if='exit')], [_p('t')]], _p('z')], 'cfg': {}},
+    {'prog': [['T', 't', [_p('a'), _p('b', run_if='exit')]], _p('c')], 'cfg': {}},
     # falsy values that are neither None nor a PhaseResult
     {'prog': [_p('a', r='BAD0'), _p('b')], 'cfg': {}},
     {'prog': [_p('a', r='BADF'), _p('b')], 'cfg': {}},
@@ -174,6 +179,7 @@ def pass_implication(prog, cfg, obs):
     need([cfg['start']], False)
   need(prog, False)
   bad = [p for p in obs['phases'] if p[1] in ('FAIL', 'ERROR')]
+  forgotten = set()     # phases whose bad records are all forgotten attempts
   if bad:
     # Is every bad record a non-final attempt of a phase that was re-invoked?
     names = [p[0] for p in obs['phases']]
@@ -188,6 +194,8 @@ def pass_implication(prog, cfg, obs):
         if not (later and p[1] == 'ERROR' and
                 (o.get('force_repeat') or o.get('repeat_on_timeout'))):
           nonfinal = False
+        else:
+          forgotten.add(p[0])
     out.append(('false-pass:non-final-attempt-terminal' if nonfinal else
                 'false-pass:fail-or-error-record',
                 {'records': [p[:3] for p in bad][:4]}))
@@ -196,7 +204,10 @@ def pass_implication(prog, cfg, obs):
       rec = [p for p in obs['phases'] if p[0] == name]
       if outcome == 'FAIL' or outcome == 'PARTIALLY_SET' or (
           outcome == 'UNSET' and not cfg.get('allow_unset')):
-        # measurements of SKIP records (skipped / repeated attempts) do not count
+        # measurements of SKIP records (skipped / repeated attempts) do not count;
+        # those of a forgotten non-final attempt belong to that known mechanism
+        if name in forgotten and bad and nonfinal:
+          continue
         if any(p[1] != 'SKIP' for p in rec):
           out.append(('false-pass:measurement-%s' % outcome.lower(),
                       {'phase': name}))
